@@ -498,7 +498,7 @@ def long_history_family(tier: str) -> list[dict[str, Any]]:
     """Hundreds of small assemblies (each scanning two files) before the probe: whatever counts, numbers or
     tabulates files, tokens, scopes or programs per *process* crosses its small thresholds (256, 1000)."""
     out: list[dict[str, Any]] = []
-    for n, probe_text, fails_by in ((300, "*=0x008000\nstart:\n    lda.w #0x1234\n    jmp.w nowhere_zq\n", "undefined_symbol"), (1100, "*=0x008000\nstart:\n    lda.w #0x1234\n    jsr.w start\n    .dw start\n", None)) + (((70000, "*=0x008000\nstart:\n    lda.b #1 %\n", "scanner_error"),) if tier == "thorough" else ()):
+    for n, probe_text, fails_by in ((300, "*=0x008000\nstart:\n    lda.w #0x1234\n    jmp.w nowhere_zq\n", "undefined_symbol"), (1100, "*=0x008000\nstart:\n    lda.w #0x1234\n    jsr.w start\n    .dw start\n", None)) + (((4500, "*=0x008000\nstart:\n    lda.b #1 %\n", "scanner_error"),) if tier == "thorough" else ()):
         files: dict[str, bytes] = {"probe.s": probe_text.encode(), "tinc.s": b"nop\n"}
         roles: dict[str, str] = {"probe.s": "source", "tinc.s": "include"}
         ops: list[dict[str, Any]] = []
@@ -587,7 +587,10 @@ def run_case(case: dict[str, Any], stats: Stats) -> list[Violation]:
     pspec = case["probe_spec"]
     probe_op = {"op": "exec", "spec": pspec, "knobs": {}, "faults": []}
     clean_ops = [{k: v for k, v in op.items() if k in ("op", "spec", "knobs", "faults", "path", "data", "mode")} for op in ops]
-    after = entries.execute(files, roles, clean_ops + [probe_op, probe_op])
+    # (the harness's wall-clock safety net is sized for a dozen operations: histories of thousands of
+    # assemblies, thorough tier only, get more)
+    wall = 1800.0 if len(ops) > 2000 else None
+    after = entries.execute(files, roles, clean_ops + [probe_op, probe_op], wall_s=wall)
     alone = entries.execute(final_files(case), roles, [probe_op])
     for o in after:
         if o.get("kind") in ("returned", "raised", "exit", "timeout"):
